@@ -688,8 +688,8 @@ class BaseDiscretizer(BaseEstimator, TransformerMixin):
         for feature in requested_features:
             # adding each value/label
             for value, label in self.labels_per_values[feature].items():
-                # checking that nan where dropped
-                if not (not self.dropna and value == self.str_nan):
+                # checking that nan where dropped (for this feature, as transform does)
+                if not (not self.features_dropna[feature] and value == self.str_nan):
                     # initiating feature summary (default value/label)
                     feature_summary = {
                         "feature": feature,
